@@ -102,7 +102,17 @@ def _pristine_mutable_defaults():
     import inspect
     import importlib
     mod = importlib.import_module("BPTK_Py.bptk")
-    for cls in [getattr(mod, "bptk", None)]:
+    classes = [getattr(mod, "bptk", None)]
+    # (the scenario managers' constructors have them too - filenames=[], scenarios={} ... -, and a manager created with the
+    #  default `filenames` appends to it: the list of files a manager re-reads then depends on what the process did before)
+    for modname, clsname in (("BPTK_Py.scenariomanager.scenario_manager_sd", "ScenarioManagerSd"),
+                             ("BPTK_Py.scenariomanager.scenario_manager_hybrid", "ScenarioManagerHybrid"),
+                             ("BPTK_Py.scenariomanager.scenario_manager", "ScenarioManager")):
+        try:
+            classes.append(getattr(importlib.import_module(modname), clsname, None))
+        except Exception:
+            pass
+    for cls in classes:
         if cls is None:
             continue
         for f in vars(cls).values():
